@@ -131,4 +131,23 @@ theorem tracer_direction (d : Int) (right : Bool) :
   · have h' : (d + 1) % 2 = 0 := by omega
     cases right <;> simp [dirOfRW, tracerRW, finalRight, h, h']
 
+
+/-- on an acyclic chain the cycle guard of d8460b7 never fires: the guarded walk finds exactly what
+the unguarded walk finds (the slow pointer stays at half the distance of the fast one) -/
+theorem walkGuarded_eq_plain (skip : TEnt → Bool) (chain : Array TEnt) (fuel i : Nat) :
+    walkGuarded skip chain fuel i i (i / 2) = walkPlain skip chain fuel i := by
+  induction fuel generalizing i with
+  | zero => rfl
+  | succ n ih =>
+    simp only [walkGuarded, walkPlain]
+    split
+    · split
+      · have hs : (if i % 2 = 1 then i / 2 + 1 else i / 2) = (i + 1) / 2 := by
+          split <;> omega
+        have hne : ¬ (i + 1 = (i + 1) / 2) := by omega
+        simp only [hs, hne, if_false]
+        exact ih (i + 1)
+      · rfl
+    · rfl
+
 end Canvas.C02
